@@ -196,6 +196,34 @@ def run(tier, seed):
                 report(c, f"nv::{LAMS[c['f']['v']]};{text}", "with the verb held by the name nv, rebound between evaluations of the same text,", got, exc, "named-verb-rebound")
                 break
     ev.cov["named_verb_rebinding_evaluations"] = nreb
+    # fifth route: ONE function per monadic adverb application, hf::{[t];t::<verb><adverb>w;t}, called again after its operand
+    # variable w has been rebound to an operand of another shape (vector, [], matrix, atom, string ...), in both orders: whatever
+    # is remembered about the parsed application from one operand must not be used for the next
+    groups = {}
+    for c in cases:
+        if c["ar"] == 1 and c["form"] not in ("while", "scanwhile") and source(c) not in bad_src and c["f"]["k"] in ("op", "lam"):
+            groups.setdefault((c["form"], json.dumps(c["f"], sort_keys=True)), []).append(c)
+    nrebop = 0
+    for (form, _), cs in sorted(groups.items()):
+        seen_ops, uniq = set(), []
+        for c in cs:
+            key = json.dumps(c["a"], sort_keys=True)
+            if key not in seen_ops:
+                seen_ops.add(key)
+                uniq.append(c)
+        if len(uniq) < 2:
+            continue
+        uniq = uniq[:8]
+        K(f"hf::{{[t];t::{vtext(uniq[0]['f'])}{ADV[form]}w;t}}")
+        for c in uniq + uniq[::-1]:
+            K(f"w::{ops[json.dumps(c['a'], sort_keys=True)][0]}")
+            got, exc = ev1("hf()")
+            nrebop += 1
+            if not canon.same(c["exp"], got):
+                report(c, f"hf::{{[t];t::{vtext(c['f'])}{ADV[form]}w;t}};w::{canon.render(c['a'])};hf()",
+                       "(the function was called before with w holding operands of other shapes)", got, exc, "operand-rebound")
+                break
+    ev.cov["operand_rebinding_evaluations"] = nrebop
     for key in order:
         name, o = ops[key]
         now = canon.canon(K(name))
